@@ -85,6 +85,12 @@ impl CodeCache {
     self.exec_memory.get_memory_area().as_ptr() as *const () as usize
   }
 
+  /// Tell the cache which ROM bank is currently mapped at 0x4000-0x7fff, so
+  /// that blocks are stored and found under the bank they were translated from
+  pub fn set_rom_bank(&mut self, bank: usize) {
+    self.code_blocks.set_rom_bank(bank as u16);
+  }
+
   pub fn get_address_for_ip(&self, ip: usize) -> Option<usize> {
     let gb_ip = ip as u16;
     self.code_blocks
